@@ -387,7 +387,7 @@ class Ctx:
                     continue
                 seen.add(sig)
                 n += 1
-                if n > 10:
+                if n > int(os.environ.get("VERIF_MAX_REPORT", "10")):
                     break
                 path = os.path.join(self.replay_dir, "v%03d.json" % n)
                 with open(path, "w") as fh:
